@@ -18,11 +18,10 @@ from __future__ import annotations
 
 import json
 import math
-import sys
 import time
 from pathlib import Path
 
-from common import REPO, VERIF, Check, InfraError, f2h, h2f, use_repo
+from common import VERIF, Check, use_repo
 
 LEVEL = "proof"
 EPS = 2.220446049250313e-16
@@ -628,6 +627,18 @@ def _run(ck: Check):
             out["skip"].append(("<catalogue %d>" % i, "build-error", f"{type(e).__name__}: {str(e)[:160]}"))
             continue
         fam_seen[scen.family] = fam_seen.get(scen.family, 0) + 1
+        try:
+            _one_configuration(ck, scen, spec, rng, thorough, i, out)
+        except Exception as e:  # an implementation exception that escaped the guarded calls: never crash
+            ck.bucket("skipped/unexpected-exception")
+            out["skip"].append((scen.name, "unexpected-exception", f"{type(e).__name__}: {str(e)[:160]}"))
+        done += 1
+    ck.extra["configurations_checked"] = done
+    _finish(ck, out, fam_seen, ok, broken, st_ok)
+
+
+def _one_configuration(ck, scen, spec, rng, thorough, i, out):
+    if True:
         check_scenario(ck, scen, rng, 5 if thorough else 4, None if thorough else 3, out)
         if spec.get("expect_switch"):
             try:
@@ -641,8 +652,9 @@ def _run(ck: Check):
         # histories on live objects: late enabling of autograd, single-parameter updates
         check_histories(ck, scen, rng, out,
                         ("late", "assign", "inplace") if thorough else ("late", ("assign", "inplace")[i % 2]))
-        done += 1
-    ck.extra["configurations_checked"] = done
+
+
+def _finish(ck, out, fam_seen, ok, broken, st_ok):
     ck.extra["implementation_evaluations"] = out["evals"]
     ck.extra["skipped"] = [list(s) for s in out["skip"][:40]]
     ck.extra["families"] = fam_seen
@@ -735,9 +747,6 @@ def replay(path: str) -> int:
                 break
     else:
         # reuse findings: replay the recorded move
-        class _R(random.Random):
-            pass
-
         r = random.Random(0)
         for _ in range(20):
             check_reuse(ck, scen, r, out)
